@@ -724,6 +724,8 @@ pub fn run(args: &Args) {
     cx.sais_stride = (universe.len() / (cx.sais_coq_budget / 2)).max(1);
     let stride = (universe.len() * 5 / (cx.coq_budget * 2 / 3)).max(1);
     let mut k = 0usize;
+    let only_wide = std::env::var("ZV_C12_ONLY_WIDE").is_ok(); // development switch: run the breadth families only
+    if only_wide { wide::families(&mut cx, &mut rng, &universe, args.thorough); let sh = cx.shards.write(&args.out); cx.sum.write(&args.out, sh); return; }
     for (t, pats) in &universe {
         for a in 0..5 {
             k += 1;
